@@ -1777,6 +1777,11 @@ class ForAll(QuantifiedConditional):
                 solution_set = []
                 break
 
+        if solution_set is None:
+            # the quantified variable has no values, so the condition holds for all of them.
+            yield OperationResult(sources, False, self)
+            return
+
         # Yield the remaining bindings (non-universal) merged with the incoming sources
         yield from [
             OperationResult({**sources, **sol}, False, self) for sol in solution_set
